@@ -196,6 +196,43 @@ func (e *Engine) havocCall(st *State, fr *Frame, site ssa.Instruction, callee *s
 	for _, a := range args {
 		st.escape(a)
 	}
+	// an fnspec of an enclosing contract, keyed by the function's short name, applies to an
+	// unmodelled library function as it does to a callback: what it is assumed to preserve and
+	// to ensure is listed as an assumption
+	var spec *FnSpec
+	for f := fr; f != nil && spec == nil; f = f.caller {
+		if f.contract != nil {
+			if s, ok := f.contract.FnSpecs[callee.Name()]; ok {
+				spec = s
+			}
+		}
+	}
+	if spec != nil && !spec.Pure && len(spec.Requires) == 0 {
+		var preserved []specVal
+		for _, cl := range spec.Preserves {
+			env := &SpecEnv{e: e, st: st, fr: fr, vars: map[string]specVal{}, oldHeap: fr.oldHeap, oldNext: fr.oldNext, pkg: pkgPathOf(fr.fn)}
+			preserved = append(preserved, env.eval(cl.E))
+		}
+		e.havocArgs(st, args, sigParamTypes(callee))
+		res := e.freshResults(st, sig, shortName(name))
+		for i, cl := range spec.Preserves {
+			env := &SpecEnv{e: e, st: st, fr: fr, vars: map[string]specVal{}, oldHeap: fr.oldHeap, oldNext: fr.oldNext, pkg: pkgPathOf(fr.fn)}
+			e.assumed["unmodelled call "+name+" in "+displayKey(fr.fn)+": assumed to preserve "+cl.Src] = true
+			st.Assume(env.equal(preserved[i], env.eval(cl.E)))
+		}
+		specVars := map[string]specVal{}
+		for i, r := range res {
+			if i < sig.Results().Len() {
+				specVars[fmt.Sprintf("res%d", i)] = specVal{r, sig.Results().At(i).Type()}
+			}
+		}
+		for _, cl := range spec.Ensures {
+			e.assumed["unmodelled call "+name+" in "+displayKey(fr.fn)+": assumed to ensure "+cl.Src] = true
+			st.Assume(e.evalClause(st, fr, cl, specVars))
+		}
+		k(st, res)
+		return
+	}
 	if idx, ok := writesOnlyArg[name]; ok {
 		ts := sigParamTypes(callee)
 		if idx < len(args) && idx < len(ts) {
@@ -462,11 +499,23 @@ func (e *Engine) ghostHooks(st *State, fr *Frame, when string, site ssa.Instruct
 		}
 		for i, cl := range h.Preserves {
 			env := &SpecEnv{e: e, st: st, fr: fr, vars: map[string]specVal{}, oldHeap: fr.oldHeap, oldNext: fr.oldNext, pkg: pkgPathOf(fr.fn)}
-			v, ok := env.eval(cl.E).v.(Term)
-			if !ok {
-				sfail("preserves %s: only scalar expressions are supported", cl.Src)
-			}
 			key := fmt.Sprintf("pres!%d!%d!%s", hi, i, siteName)
+			ev := env.eval(cl.E).v
+			if pv, isPtr := ev.(VPtr); isPtr {
+				// a pointer is preserved when it designates the same object
+				if when == "before" {
+					st.ghost[key+"!ref"] = pv.Ref
+					st.ghost[key+"!idx"] = pv.Idx
+				} else if saved, have := st.ghost[key+"!ref"]; have {
+					e.assumed["call "+callee+" in "+displayKey(fr.fn)+": assumed to preserve "+cl.Src] = true
+					st.Assume(And(Eq(saved, pv.Ref), Eq(st.ghost[key+"!idx"], pv.Idx)))
+				}
+				continue
+			}
+			v, ok := ev.(Term)
+			if !ok {
+				sfail("preserves %s: only scalar and pointer expressions are supported", cl.Src)
+			}
 			if when == "before" {
 				st.ghost[key] = v
 			} else if saved, have := st.ghost[key]; have {
